@@ -177,6 +177,60 @@ def gqGo (f : α → α) (rtol c d : α) : List (List (α × α)) → Option α 
 def gaussQuad (f : α → α) (rtol : α) (rules : List (List (α × α))) (a b : α) : α :=
   gqGo f rtol (0.5 * (a + b)) (0.5 * (b - a)) rules none 0
 
+/-! #### `GaussianQuadrature` as an object: parameters, flat roots/weights cache, setters (integrators1d.pyx:83-184) -/
+
+/-- `_min_order`, `_max_order`, `_rtol`, and the flat `_roots` / `_weights` arrays filled by `_build_cache` -/
+structure GQ (α : Type) where
+  minO : Nat
+  maxO : Nat
+  rtol : α
+  roots : List α
+  weights : List α
+
+/-- rules for orders `mn … mx`; `table k` = `roots_legendre(k)` as (root, weight) pairs -/
+def rulesFor (table : Nat → List (α × α)) (mn mx : Nat) : List (List (α × α)) :=
+  (List.range (mx + 1 - mn)).map fun k => table (mn + k)
+
+/-- `_build_cache`: orders `min_order … max_order` laid out one after the other -/
+def buildRoots (table : Nat → List (α × α)) (mn mx : Nat) : List α :=
+  ((rulesFor table mn mx).map fun r => r.map Prod.fst).flatten
+def buildWeights (table : Nat → List (α × α)) (mn mx : Nat) : List α :=
+  ((rulesFor table mn mx).map fun r => r.map Prod.snd).flatten
+
+/-- `__init__` (arguments already validated: `1 ≤ min ≤ max`, `rtol > 0`; anything else raises) -/
+def gqNew (table : Nat → List (α × α)) (mn mx : Nat) (rtol : α) : GQ α :=
+  { minO := mn, maxO := mx, rtol := rtol, roots := buildRoots table mn mx, weights := buildWeights table mn mx }
+
+inductive GQOp (α : Type) where
+  | setMin (n : Int)
+  | setMax (n : Int)
+  | setRtol (r : α)
+
+/-- the three property setters; a rejected value (`ValueError`) leaves the object untouched.  Returns the new state
+and whether the setter raised. -/
+def gqSet (table : Nat → List (α × α)) (g : GQ α) : GQOp α → GQ α × Bool
+  | .setMin n =>
+    if n < 1 then (g, true) else if n > (g.maxO : Int) then (g, true)
+    else ({ g with minO := n.toNat, roots := buildRoots table n.toNat g.maxO, weights := buildWeights table n.toNat g.maxO }, false)
+  | .setMax n =>
+    if n < 1 then (g, true) else if n < (g.minO : Int) then (g, true)
+    else ({ g with maxO := n.toNat, roots := buildRoots table g.minO n.toNat, weights := buildWeights table g.minO n.toNat }, false)
+  | .setRtol r => if r ≤ 0 then (g, true) else ({ g with rtol := r }, false)
+
+/-- `evaluate` reading the flat cache: `ibegin += order` is `drop order`; `k` = orders still to try -/
+def gqEvalGo (f : α → α) (rtol c d : α) : List α → List α → Nat → Nat → Option α → α → α
+  | _, _, _, 0, _, newval => newval
+  | roots, weights, order, k + 1, old, _ =>
+    let nv := glRule f c d ((roots.take order).zip (weights.take order))
+    match old with
+    | none => gqEvalGo f rtol c d (roots.drop order) (weights.drop order) (order + 1) k (some nv) nv
+    | some o =>
+      if absv (nv - o) < rtol * absv nv then nv
+      else gqEvalGo f rtol c d (roots.drop order) (weights.drop order) (order + 1) k (some nv) nv
+
+def gqEval (f : α → α) (g : GQ α) (a b : α) : α :=
+  gqEvalGo f g.rtol (0.5 * (a + b)) (0.5 * (b - a)) g.roots g.weights g.minO (g.maxO + 1 - g.minO) none 0
+
 /-! ### doppler.pyx and raysect vectors -/
 
 def dot (a b : V3 α) : α := a.1 * b.1 + a.2.1 * b.2.1 + a.2.2 * b.2.2
